@@ -103,8 +103,8 @@ impl Prop {
             (Prop::C01 | Prop::C03 | Prop::C07 | Prop::C08 | Prop::C09 | Prop::C20, true) => vec![17, 31, 32, 33, 64, 65, 100, 128, 129, 255, 256, 1000],
             (Prop::C04 | Prop::C10 | Prop::C11 | Prop::C12, false) => vec![33, 64, 65, 256],
             (Prop::C04 | Prop::C10 | Prop::C11 | Prop::C12, true) => vec![32, 33, 64, 65, 128, 129, 256, 1000],
-            (Prop::C05 | Prop::C06, false) => vec![33, 64, 65],
-            (Prop::C05 | Prop::C06, true) => vec![32, 33, 64, 65, 128, 129],
+            (Prop::C05 | Prop::C06, false) => vec![33, 64, 65, 256],
+            (Prop::C05 | Prop::C06, true) => vec![32, 33, 64, 65, 128, 129, 256, 1000],
             _ => vec![],
         };
         let caps = self.caps(thorough);
@@ -274,7 +274,18 @@ pub fn exec_item(prop: Prop, item: &Item) -> Result<ItemResult, (Case, String)> 
                 } else {
                     o.counts[*kind as usize]
                 };
-                for k in 1..=d {
+                // every fault point; for long operations (larger capacities) the points around the ends, the middle
+                // and the thresholds 32 / 64 / 128 / 256
+                let ks: Vec<u32> = if d <= 80 {
+                    (1..=d).collect()
+                } else {
+                    let mut v: Vec<u32> = vec![1, 2, 3, 31, 32, 33, 34, 63, 64, 65, 66, 127, 128, 129, 255, 256, 257, d / 2, d / 2 + 1, d - 2, d - 1, d];
+                    v.retain(|k| *k >= 1 && *k <= d);
+                    v.sort_unstable();
+                    v.dedup();
+                    v
+                };
+                for k in ks {
                     let mut c = c0.clone();
                     c.fault = Some(Fault { kind: *kind, k, op_index: if c0.ops.is_empty() { 0 } else { op_index } });
                     let o = run_case(&c, opts).map_err(|f| fail_of(&c, f))?;
